@@ -57,6 +57,11 @@ try:
         t0 = time.time()
         pr = subprocess.run(["/verif/check", p, "--tier", a.tier], env=dict(os.environ, VERIF_REPO=wt), stdout=subprocess.PIPE, stderr=subprocess.PIPE)
         err = pr.stderr.decode(errors="replace")
+        for line in pr.stdout.decode(errors="replace").splitlines():
+            mm = re.match(r"VIOLATION property=(\S+) replay=(\S+)", line)
+            if mm and os.path.exists(mm.group(2)):
+                shutil.copyfile(mm.group(2), os.path.join(sd, f"replay-{p}.json"))   # the (shrunk) case my check found on this change
+                break
         m = re.search(r"---- violation ----\n(.*?)(?:\n----|\nVIOLATION|\Z)", err, re.S)
         results[p] = {"rc": pr.returncode, "detected": pr.returncode == 1, "wall_s": round(time.time() - t0), "tier": a.tier,
                       "first_violation": (m.group(1)[:600] if m else "")}
